@@ -41,3 +41,47 @@ def blist(xs):
 
 def qlit(fr):
     return f"(({fr.numerator}) # {fr.denominator})"
+
+
+def rlit(x):
+    """Python float -> Coq real literal (exact decimal expansion of the binary64 value would be long; repr round-trips)."""
+    s = repr(float(x))
+    if s in ("inf", "-inf", "nan"):
+        raise ValueError("non-finite value")
+    return f"({s})" if s.startswith("-") else s
+
+
+INTERVAL_HEADER = ("From Coq Require Import Reals List.\nFrom Interval Require Import Tactic.\n"
+                   "From TLX Require Import Model.Poly Model.Relax Gen.Ops.\nImport ListNotations.\nLocal Open Scope R_scope.\n")
+UNFOLD = ("cbv [mix mix_loop soft_raw softmax rsum gate_values mix_n peval_R peval op map seq combine fold_right fold_left fst snd "
+          "sigmoid soft_walsh wform one_hot Nat.eqb nth EXTRA]")
+
+
+def interval_goals(ck, name, goals, extra_imports="", extra_unfold="", prec=64, timeout=900):
+    """goals: list of (label, coq_real_expr, observed_float, tol).  Each becomes a lemma
+       Rabs (expr - observed) <= tol closed by `interval` and checked by Qed.  Returns list of failed labels."""
+    failed = []
+    todo = list(goals)
+    unfold = UNFOLD.replace("EXTRA", extra_unfold)
+    while todo:
+        txt = INTERVAL_HEADER + extra_imports
+        for k, (label, expr, obs, tol) in enumerate(todo):
+            txt += (f"Lemma g{k} : Rabs ({expr} - {rlit(obs)}) <= {rlit(tol)}.\n"
+                    f"Proof. {unfold}; interval with (i_prec {prec}). Qed.\n")
+        rc, out, err = ck.coq_eval(name, txt, timeout=timeout)
+        if rc == 0:
+            break
+        import re
+        m = re.search(r"line (\d+)", err)
+        if not m:
+            ck.broke("correspondence", "interval run", err[-400:])
+            return [g[0] for g in todo]
+        line = int(m.group(1))
+        base = (INTERVAL_HEADER + extra_imports).count("\n")
+        k = (line - base - 1) // 2
+        if not (0 <= k < len(todo)):
+            ck.broke("correspondence", "interval run", err[-400:])
+            return [g[0] for g in todo]
+        failed.append(todo[k][0])
+        todo = todo[k + 1:]
+    return failed
